@@ -145,7 +145,7 @@ def replay_flat(states, extra):
             if k % 97 == 0:                      # now and then a freshly constructed grader instead of the reused one
                 rig = FlatRig(*key)
             rig.load(tensor, c['den'])
-            perms = [list(range(c['n']))] if c['ordered'] else flat_perms(c['n'], k, full and c['n'] <= 3)
+            perms = [list(range(c['n']))] if c['ordered'] else flat_perms(c['n'], k, full and (c['n'] <= 3 or k % 4 == 0))
             for perm in perms:
                 n_calls += 1
                 obs = observe_flat(rig, c['den'], perm)
@@ -629,10 +629,11 @@ def rand_inner(rng, size, depth, allow_slg):
     ordered = rng.random() < .4
     pc = rng.random() < .7
     A = rng.choice([1, 1, 2])
-    if depth < 2 and size >= 4 and rng.random() < .5:
+    if depth < 2 and size >= 3 and rng.random() < .6:
         # a grouped inner ListGrader (third level)
-        if ordered:
-            sizes = rng.choice([[2, size - 2], [1, size - 1], [size - 2, 1, 1]])
+        if ordered or size == 3:
+            ordered = True
+            sizes = rng.choice([[2, size - 2], [1, size - 1], [size - 2, 1, 1]] if size >= 4 else [[1, 2], [2, 1]])
             groups = rand_partition_groups(rng, size, sizes)
             return lst(True, pc, groups, [rand_inner(rng, len(g), depth + 1, allow_slg) for g in groups], A=A, subs='list',
                        grouping_cfg=True)
@@ -777,7 +778,48 @@ def observe_random(i, seed, max_n):
                 rec['direct'] = b.direct(a)
     rec['shape'] = shape_key(desc)
     rec['n'] = b.n
+    rec['features'] = features(desc, tree, rec)
     return rec
+
+
+def depth(d):
+    return 0 if d['kind'] == 'leaf' else 1 + max(depth(c) for c in d['children'])
+
+
+def features(desc, tree, rec):
+    """which behaviours of the property this record exercises (vacuity guard: every feature must occur)"""
+    f = set()
+    obs = rec['obs']
+    if has_cert(tree):
+        f.add('certificate')
+    sk = shape_key(desc)
+    if 's1' in sk:
+        f.add('singlelist_cell')
+    if depth(desc) >= 3:
+        f.add('three_levels')
+    if depth(desc) == 2:
+        f.add('two_levels')
+    if rec['direct']:
+        f.add('ordered_direct')
+    if obs and all(len(e['path']) >= 2 for e in obs):
+        if obs[0]['path'][0] > 1:
+            f.add('later_answer_list_chosen')
+        if not desc['ordered']:
+            sig = [obs[g[0] - 1]['path'][1] for g in desc['groups']]
+            if sig != list(range(1, len(sig) + 1)):
+                f.add('non_identity_assignment')
+        if any(len(e['path']) % 2 == 1 and e['path'][-1] > 1 for e in obs):
+            f.add('later_alternative_chosen')
+        gs = [Fraction(e['g'][0], e['g'][1]) for e in obs]
+        if not desc['pc']:
+            f.add('no_partial_credit_perfect' if all(x == 1 for x in gs) else 'no_partial_credit_zeroed')
+            if all(x == 0 for x in gs) and value({**tree, 'pc': True}) > 0:
+                f.add('zeroing_changed_something')
+        if any(0 < x < 1 for x in gs):
+            f.add('partial_credit_entry')
+        if needs_grouping(desc):
+            f.add('grouping')
+    return sorted(f)
 
 
 def observe_chunk(items, extra):
@@ -831,6 +873,22 @@ def flat_class(b):
     return 'assignment'
 
 
+def layout_class(b):
+    obs = b['observed']
+    if isinstance(obs, str):
+        if 'reports the result of input' in obs:
+            return 'position'
+        if 'raised' in obs:
+            return 'raised'
+        return 'entry'
+    if [e[0] for e in obs] in [[e[0] for e in v] for v in b['allowed']]:
+        return 'grade'
+    qs = [e[0] for e in obs]
+    if len(set(qs)) != len(qs):
+        return 'bijection'
+    return 'order' if b.get('outOrd') and b.get('inOrd') else 'assignment'
+
+
 def run(ctx):
     from engine.main import Machinery
     total_calls = 0
@@ -852,7 +910,7 @@ def run(ctx):
                 if b is None:
                     continue
                 sig = dict(b)
-                sig['class'] = 'C05-' + flat_class(b) if part == 'flat' else 'C05-layout-' + flat_class(b)
+                sig['class'] = 'C05-' + (flat_class(b) if part == 'flat' else layout_class(b))
                 ctx.violation(sig, 'ListGrader %s case %s: observed %r is not an allowed result (allowed e.g. %r)' % (
                     part, {k: v for k, v in b.items() if k in ('n', 'A', 'ordered', 'pc', 'style', 'perm', 'grouping', 'outOrd', 'inOrd', 'pcOut', 'pcIn')},
                     b['observed'], b['allowed'][:2]))
@@ -893,6 +951,14 @@ def run(ctx):
                'class': 'C05-' + clause, 'obs': r['obs']}
         ctx.violation(sig, 'ListGrader on random layout %s (case %d, %d boxes): %s' % (
             r['shape'], i, r['n'], CLAUSE_TEXT.get(clause, clause)))
+    feats = {}
+    for r in good:
+        for f in r['features']:
+            feats[f] = feats.get(f, 0) + 1
+    ctx.extra['random_features'] = feats
+    missing = [f for f in FEATURES if not feats.get(f)]
+    if missing:
+        raise Machinery('random driver never exercised: %s (vacuity guard)' % ', '.join(missing))
     big = sum(1 for r in good if has_cert(r['tree']))
     ctx.extra['bounds'] = {'tier': ctx.tier, 'random_records': len(good), 'random_skipped_large_rationals': skipped,
                            'random_with_certificate': big, 'max_inputs_random': max_n,
@@ -908,6 +974,11 @@ def run(ctx):
         'unordered grouped ListGraders with groups of one input, and configurations the constructor rejects, are outside the case space',
         'float credits are compared with exact rationals within 1e-9; generated credits differ by >= 1/3000 whenever they differ',
     ]
+
+
+FEATURES = ['certificate', 'singlelist_cell', 'three_levels', 'two_levels', 'ordered_direct', 'later_answer_list_chosen',
+            'non_identity_assignment', 'later_alternative_chosen', 'no_partial_credit_perfect', 'no_partial_credit_zeroed',
+            'zeroing_changed_something', 'partial_credit_entry', 'grouping']
 
 
 def has_cert(t):
